@@ -543,6 +543,7 @@ def _run(ctx, nscen, max_points, nlocal, rep):
     from harness import cli_hist
     cli_hist.run_scenarios(ctx, rep, {'kill': max(4, nscen), 'oserror': max(2, nscen // 2)}, CLI_MINE)
     cli_hist.refused_removal_probe(ctx, rep, CLI_MINE)
+    cli_hist.scan_fault_probe(ctx, rep, CLI_MINE)
     cli_hist.linked_shards_probe(ctx, rep, CLI_MINE)
     # permanent failures inside the remote adapters (B2 by name / by id, S3-compatible; fake services answering 401/403/5xx for good)
     from harness import remote_hist
